@@ -13,7 +13,9 @@ import (
 	"fmt"
 	"go/token"
 	"go/types"
+	"regexp"
 	"sort"
+	"strconv"
 	"strings"
 
 	"golang.org/x/tools/go/ssa"
@@ -250,50 +252,457 @@ func c19CallSites(w *World, fn *ssa.Function) []*ssa.Call {
 	return out
 }
 
+// The two size limits of the reference tree (registry/repository.go documents them as the library's limits for a
+// signature manifest and for a signature envelope). They are pinned here as numbers: the clause "a referrer whose
+// manifest or blob exceeds the size caps is refused before its content is used" speaks about these caps, and a
+// tree that fetches a manifest under a larger one accepts referrers the reference tree refuses.
+const (
+	c19ManifestCap int64 = 4 * 1024 * 1024
+	c19BlobCap     int64 = 32 * 1024 * 1024
+)
+
 type c19CapSite struct {
 	fn     *ssa.Function
 	in     ssa.Instruction
 	ok     bool
 	K      int64
 	detail string
+	// what the fetched bytes are used for: "manifest" (decoded as JSON), "blob" (handed out by FetchSignatureBlob as the
+	// envelope), "" (not identified; why says where the bytes were lost)
+	class string
+	why   string
+	// the calls the decision was carried through, from the sink outwards (the last one is `in`)
+	via []ssa.Instruction
+	// where the comparison that gives K stands
+	capAt string
 }
 
-// c19CapDecide decides "D is capped when control is at `at`" in fn, or — when D is a parameter of an unexported
-// helper and the helper itself does not test it — at every call site of the helper for the argument bound to it.
-// (The obligation is the same one; only the frame in which it is decided moves: a read extracted into
-// `fetch(ctx, src, d)` is as safe as its callers make it.)
-func c19CapDecide(w *World, fn *ssa.Function, at ssa.CallInstruction, D ssa.Value, depth int, out *[]c19CapSite) {
-	fi := w.Info(fn)
-	g := guardsAt(fi, at)
-	d := desc(D)
-	K, ok := c19Capped(g, d)
+// c19CapMemo: the decisions of rule (a) of one analysis, before merging (c19CapProved reads them).
+var c19CapMemo = map[*World][]c19CapSite{}
+
+// c19CapProved: rule (a) found the read that stands at (or behind) the first call capped on its own descriptor in
+// every context that goes through all the given calls (the read, and the calls of the listing loop's frames that
+// lead to it). The listing rule asks the same question per media type with the engine's composed facts; where those
+// cannot see a cap that rule (a) decided with the constants of the call sites, its answer counts.
+func c19CapProved(w *World, calls ...ssa.Instruction) bool {
+	n := 0
+	for _, s := range c19CapMemo[w] {
+		all := true
+		for _, call := range calls {
+			has := false
+			for _, v := range s.via {
+				if v == call {
+					has = true
+				}
+			}
+			all = all && has
+		}
+		if !all {
+			continue
+		}
+		if !s.ok {
+			return false
+		}
+		n++
+	}
+	return n > 0
+}
+
+// c19CapState: one capped-fetch obligation while it is carried from the frame of the sink towards the frame in
+// which it can be decided.
+type c19CapState struct {
+	fn    *ssa.Function
+	at    ssa.CallInstruction
+	D     ssa.Value         // the fetched descriptor as a value of fn (nil: it only exists in a callee's frame)
+	d     string            // its rendering in fn's terms
+	inner map[string]string // what every path inside the callees passed on its way to the sink, in fn's terms
+	capOK bool              // cap decided in a callee's frame ...
+	K     int64             // ... with this constant
+	bytes []ssa.Value       // the values of fn that hold what the sink read (class not decided yet)
+	class string
+	why   string
+	via   []ssa.Instruction
+	capAt string
+}
+
+// c19CapDecide decides, for one sink, the two questions of rule (a):
+//
+//	cap:   every path to the sink passes `D.Size <= K`, K a positive constant;
+//	class: what the bytes the sink reads are used for (decoded as a manifest / handed out as the envelope).
+//
+// Both are decided on the call tree. The frame of the sink knows `D.Size <= X` from its own branches (guardsAt); when
+// the sink stands in an unexported helper with a closed list of call sites (c19Liftable), the facts of the helper's
+// frame are translated into each caller's frame — parameters replaced by the arguments of that call (c19Into) — and
+// joined with what the caller itself passed before the call. That one mechanism covers
+//
+//   - the helper that does not test at all (`fetch(ctx, src, d)`): D is its parameter, the caller's own test counts;
+//   - the helper that tests against a cap it is given (`fetchLimited(ctx, src, d, limit)`: `d.Size <= limit` becomes
+//     `arg.Size <= 4194304` at a call site that passes the constant, whatever the order of the parameters is and
+//     however many wrappers hand the cap on): one obligation per call site, K = the constant passed there;
+//   - the helper that tests against its own constant: decided in the helper, K = that constant — a cap parameter
+//     that does not take part in the comparison guarding the sink does not change K.
+//
+// The bytes are followed the other way (c19BytesUse): through the helper's results to the call site, into module
+// functions they are passed to. The obligation is reported in the outermost frame either question needed, keyed by
+// that function — the four fetches of the reference tree keep their four keys when cap and fetch move into a helper.
+func c19CapDecide(w *World, entry *ssa.Function, fn *ssa.Function, at ssa.CallInstruction, D ssa.Value, out *[]c19CapSite) {
+	st := c19CapState{fn: fn, at: at, D: D, d: desc(D), via: []ssa.Instruction{at}}
+	if call, ok := at.(*ssa.Call); ok {
+		st.bytes = c19Results(call, 0)
+	} else {
+		st.why = "the read is deferred or run as a goroutine"
+	}
+	c19CapWalk(w, entry, st, 0, out)
+}
+
+func c19CapWalk(w *World, entry *ssa.Function, st c19CapState, depth int, out *[]c19CapSite) {
+	fn := st.fn
+	facts := map[string]string{}
+	for l, p := range guardsAt(w.Info(fn), st.at) {
+		facts[l] = p
+	}
+	for l, p := range st.inner {
+		if _, dup := facts[l]; !dup {
+			facts[l] = p
+		}
+	}
+	// cap
 	// D's Size must not be written after the check: no store to the Size field of an alloc D is loaded from
 	mod := false
-	if un, isLoad := D.(*ssa.UnOp); isLoad {
+	if un, isLoad := st.D.(*ssa.UnOp); isLoad {
 		if al, isAl := un.X.(*ssa.Alloc); isAl {
 			mod = len(fieldStores(fn, al, "Size")) > 0
 		}
 	}
-	if ok && !mod {
-		*out = append(*out, c19CapSite{fn, at, true, K, ""})
-		return
-	}
-	if pi := c19ParamIdx(fn, D); pi >= 0 && depth < 3 && !mod && c19Liftable(w, fn) {
-		if sites := c19CallSites(w, fn); len(sites) > 0 {
-			for _, cs := range sites {
-				if pi >= len(cs.Call.Args) {
-					*out = append(*out, c19CapSite{cs.Parent(), cs, false, 0, "argument list not understood"})
-					continue
+	if !st.capOK && !mod {
+		if st.K, st.capOK = c19Capped(facts, st.d); st.capOK {
+			for _, l := range labelList(facts) {
+				if k, ok := c19Capped(map[string]string{l: ""}, st.d); ok && k == st.K {
+					st.capAt = strings.TrimSuffix(facts[l], "~")
+					break
 				}
-				c19CapDecide(w, cs.Parent(), cs, cs.Call.Args[pi], depth+1, out)
+			}
+		}
+	}
+	// a frame further out can only help when the descriptor or the bound of a comparison on it comes from there
+	capLift := !st.capOK && !mod && (strings.Contains(st.d, "param:") || c19CapPending(facts, st.d))
+	// class
+	var up []int
+	if st.class == "" && len(st.bytes) > 0 {
+		u := c19BytesUse(w, entry, fn, st.bytes, 0, map[ssa.Value]bool{})
+		switch {
+		case u.decoded:
+			st.class = "manifest"
+		case u.envelope:
+			st.class = "blob"
+		default:
+			up = u.upList()
+			if len(up) == 0 {
+				st.why = "the bytes read in " + fnName(fn) + " are neither decoded nor returned"
+			}
+		}
+		st.bytes = nil
+	}
+	if (capLift || len(up) > 0) && depth < 3 && c19Liftable(w, fn) {
+		if sites := c19CallSites(w, fn); len(sites) > 0 {
+			pi := -1
+			if st.D != nil {
+				pi = c19ParamIdx(fn, st.D)
+			}
+			for _, cs := range sites {
+				tr := c19Into(fn, cs, c19Same)
+				nx := c19CapState{fn: cs.Parent(), at: cs, d: tr(st.d), inner: map[string]string{}, capOK: st.capOK, K: st.K, class: st.class, why: st.why, capAt: st.capAt}
+				nx.via = append(append([]ssa.Instruction{}, st.via...), cs)
+				if pi >= 0 && pi < len(cs.Call.Args) {
+					nx.D = cs.Call.Args[pi]
+					nx.d = desc(nx.D)
+				}
+				// what this frame contributes, read with the constants of this call: a branch of fn whose condition is
+				// decided by a constant argument (`limit > 0 && d.Size > limit` called with a positive constant) is not a
+				// path of this call
+				here := facts
+				if cut := c19ConstFalseEdges(fn, tr); len(cut) > 0 && st.at.Block().Index != 0 && innermostLoop(fn, st.at.Block()) == nil {
+					g, reach := w.Info(fn).mustPassBetweenCut([]int{0}, blocksOf(st.at), cut)
+					if !reach {
+						continue // with these arguments the call does not get to the read
+					}
+					here = map[string]string{}
+					for l, p := range g {
+						here[l] = p
+					}
+					for l, p := range st.inner {
+						if _, dup := here[l]; !dup {
+							here[l] = p
+						}
+					}
+				}
+				for l, p := range here {
+					nx.inner[tr(l)] = p
+				}
+				for _, k := range up {
+					nx.bytes = append(nx.bytes, c19Results(cs, k)...)
+				}
+				if len(up) > 0 && len(nx.bytes) == 0 {
+					nx.why = "the bytes " + fnName(fn) + " returns are dropped"
+				}
+				c19CapWalk(w, entry, nx, depth+1, out)
 			}
 			return
 		}
 	}
-	*out = append(*out, c19CapSite{fn, at, false, 0, fmt.Sprintf("fetched descriptor %s; size modified=%v; facts on every path to the fetch: %s", trunc(d, 120), mod, summarizeLabels(g, 8))})
+	if len(up) > 0 {
+		st.why = "the bytes leave through the results of " + fnName(fn) + ", whose callers are not a closed list"
+	}
+	site := c19CapSite{fn: fn, in: st.at, ok: st.capOK, K: st.K, class: st.class, why: st.why, via: st.via, capAt: st.capAt}
+	if !st.capOK {
+		site.detail = fmt.Sprintf("fetched descriptor %s; size modified=%v; facts on every path to the fetch: %s", trunc(st.d, 120), mod, summarizeLabels(facts, 8))
+	}
+	*out = append(*out, site)
 }
 
-// c19SortSites orders decisions by function and position and merges repeated decisions at one instruction.
+var c19ConstCmpRe = regexp.MustCompile(`^(EQ|NE|LT|LE|GT|GE)\(const:(-?\d+),const:(-?\d+)\)$`)
+
+// c19ConstFalseEdges: the branch edges of fn whose condition, with fn's parameters replaced by the arguments of one
+// call (tr), is a comparison of two integer constants that is false.
+func c19ConstFalseEdges(fn *ssa.Function, tr func(string) string) map[edgeKey]bool {
+	out := map[edgeKey]bool{}
+	for _, b := range fn.Blocks {
+		iff, ok := blockTerm(b).(*ssa.If)
+		if !ok || len(b.Succs) != 2 {
+			continue
+		}
+		for j := 0; j < 2; j++ {
+			l := condLabel(iff.Cond, j == 0)
+			if !strings.Contains(l, "param:") {
+				continue
+			}
+			m := c19ConstCmpRe.FindStringSubmatch(tr(l))
+			if m == nil {
+				continue
+			}
+			x, e1 := strconv.ParseInt(m[2], 10, 64)
+			y, e2 := strconv.ParseInt(m[3], 10, 64)
+			if e1 != nil || e2 != nil {
+				continue
+			}
+			var holds bool
+			switch m[1] {
+			case "EQ":
+				holds = x == y
+			case "NE":
+				holds = x != y
+			case "LT":
+				holds = x < y
+			case "LE":
+				holds = x <= y
+			case "GT":
+				holds = x > y
+			case "GE":
+				holds = x >= y
+			}
+			if !holds {
+				out[edgeKey{b.Index, j}] = true
+			}
+		}
+	}
+	return out
+}
+
+// c19CapPending: the facts contain a comparison `d.Size <= X` whose bound X is spelled with a parameter: the frame
+// of a caller, where the parameter is an argument, may know X as a constant.
+func c19CapPending(facts map[string]string, d string) bool {
+	for l := range facts {
+		if !strings.Contains(l, "param:") {
+			continue
+		}
+		if (strings.HasPrefix(l, "LE("+d+".Size,") || strings.HasPrefix(l, "LT("+d+".Size,")) && strings.Contains(l[len(d)+9:], "param:") {
+			return true
+		}
+		if (strings.HasPrefix(l, "GE(") || strings.HasPrefix(l, "GT(")) && strings.HasSuffix(l, ","+d+".Size)") && strings.Contains(l[:len(l)-len(d)-7], "param:") {
+			return true
+		}
+	}
+	return false
+}
+
+// c19Results: the values that hold result k of a call (the call itself for a single result).
+func c19Results(call *ssa.Call, k int) []ssa.Value {
+	if _, isTuple := call.Type().(*types.Tuple); !isTuple {
+		if k == 0 {
+			return []ssa.Value{call}
+		}
+		return nil
+	}
+	var out []ssa.Value
+	if refs := call.Referrers(); refs != nil {
+		for _, r := range *refs {
+			if ex, ok := r.(*ssa.Extract); ok && ex.Index == k {
+				out = append(out, ex)
+			}
+		}
+	}
+	return out
+}
+
+// c19Use: what a function does with a value that holds fetched content.
+type c19Use struct {
+	decoded  bool         // handed to encoding/json (Unmarshal, or a Decoder reading it)
+	envelope bool         // returned as the first result of the exported fetch operation
+	up       map[int]bool // returned as result k of a function that is not that operation
+}
+
+func (u c19Use) upList() []int {
+	var out []int
+	for k := range u.up {
+		out = append(out, k)
+	}
+	sort.Ints(out)
+	return out
+}
+
+// c19Carriers: standard-library and oras-go calls whose result holds (a view of, a reader over, the content read
+// from) their first argument.
+var c19Carriers = []string{"bytes.NewReader", "bytes.NewBuffer", "bytes.NewBufferString", "bytes.Clone", "bytes.TrimSpace", "slices.Clone",
+	"strings.NewReader", "io.ReadAll", "io.LimitReader", "io.NopCloser", "bufio.NewReader", "encoding/json.NewDecoder", "oras/content.ReadAll"}
+
+// c19BytesUse follows a value (the bytes a fetch returned, or the reader a Fetch opened) through fn: copies, phis,
+// conversions, slices, locals it is parked in (a variable or a field of a local record, flow-insensitively), readers
+// and buffers made over it, module functions it is passed to (their parameter is followed in turn; what they return
+// of it comes back as the call's result) — up to the points that decide its class: a JSON decode, or a return.
+func c19BytesUse(w *World, entry, fn *ssa.Function, starts []ssa.Value, depth int, seen map[ssa.Value]bool) c19Use {
+	u := c19Use{up: map[int]bool{}}
+	var work []ssa.Value
+	push := func(v ssa.Value) {
+		if v != nil && !seen[v] {
+			seen[v] = true
+			work = append(work, v)
+		}
+	}
+	pushLoads := func(addr ssa.Value) {
+		if refs := addr.Referrers(); refs != nil {
+			for _, r := range *refs {
+				if un, ok := r.(*ssa.UnOp); ok && un.Op == token.MUL {
+					push(un)
+				}
+			}
+		}
+	}
+	for _, v := range starts {
+		push(v)
+	}
+	for len(work) > 0 {
+		x := work[len(work)-1]
+		work = work[:len(work)-1]
+		refs := x.Referrers()
+		if refs == nil {
+			continue
+		}
+		for _, r := range *refs {
+			switch r := r.(type) {
+			case *ssa.Phi:
+				push(r)
+			case *ssa.ChangeType:
+				push(r)
+			case *ssa.Convert:
+				push(r)
+			case *ssa.ChangeInterface:
+				push(r)
+			case *ssa.MakeInterface:
+				push(r)
+			case *ssa.Slice:
+				if r.X == x {
+					push(r)
+				}
+			case *ssa.TypeAssert:
+				if r.CommaOk {
+					if rr := r.Referrers(); rr != nil {
+						for _, e := range *rr {
+							if ex, ok := e.(*ssa.Extract); ok && ex.Index == 0 {
+								push(ex)
+							}
+						}
+					}
+				} else {
+					push(r)
+				}
+			case *ssa.Store:
+				if r.Val != x {
+					continue
+				}
+				switch a := r.Addr.(type) {
+				case *ssa.Alloc:
+					pushLoads(a)
+				case *ssa.FieldAddr:
+					// a field of a local record: the loads of that field of that record
+					if ar := a.X.Referrers(); ar != nil {
+						for _, o := range *ar {
+							if fa, ok := o.(*ssa.FieldAddr); ok && fa.Field == a.Field {
+								pushLoads(fa)
+							}
+						}
+					}
+				}
+			case *ssa.Return:
+				for k, res := range r.Results {
+					if res != x {
+						continue
+					}
+					if fn == entry {
+						if k == 0 {
+							u.envelope = true
+						}
+					} else {
+						u.up[k] = true
+					}
+				}
+			case *ssa.Call:
+				cc := r.Common()
+				args := cc.Args
+				switch {
+				case isCallTo(r, "encoding/json.Unmarshal") && len(args) == 2:
+					if args[0] == x {
+						u.decoded = true
+					}
+				case isCallTo(r, "(*encoding/json.Decoder).Decode") && len(args) == 2:
+					if args[0] == x {
+						u.decoded = true
+					}
+				case isCallTo(r, c19Carriers...) && len(args) > 0:
+					if args[0] == x {
+						for _, v := range c19Results(r, 0) {
+							push(v)
+						}
+					}
+				case isCallTo(r, "builtin:append"):
+					push(r)
+				default:
+					g := staticCallee(r)
+					if g == nil || g.Blocks == nil || !w.IsProductFn(g) || depth >= 3 || cc.IsInvoke() {
+						continue
+					}
+					for i, a := range args {
+						if a != x || i >= len(g.Params) {
+							continue
+						}
+						in := c19BytesUse(w, entry, g, []ssa.Value{g.Params[i]}, depth+1, map[ssa.Value]bool{})
+						u.decoded = u.decoded || in.decoded
+						u.envelope = u.envelope || in.envelope
+						for _, k := range in.upList() {
+							for _, v := range c19Results(r, k) {
+								push(v)
+							}
+						}
+					}
+				}
+			}
+		}
+	}
+	return u
+}
+
+// c19SortSites orders decisions by function and position and merges repeated decisions at one instruction (the two
+// sinks of a `Fetch` + `ReadAll` helper arrive at the same call site): the weaker verdict, the larger K and the
+// stricter class stay.
 func c19SortSites(sites []c19CapSite) []c19CapSite {
 	pos := func(s c19CapSite) (string, int, int) {
 		return fnName(s.fn), s.in.Block().Index, instrIndex(s.in)
@@ -309,17 +718,105 @@ func c19SortSites(sites []c19CapSite) []c19CapSite {
 		}
 		return a3 < b3
 	})
+	rank := map[string]int{"manifest": 2, "": 1, "blob": 0}
 	var out []c19CapSite
 	for _, s := range sites {
 		if n := len(out); n > 0 && out[n-1].in == s.in {
-			if out[n-1].ok && !s.ok {
-				out[n-1] = s
+			o := &out[n-1]
+			cls, why := o.class, o.why
+			if rank[s.class] > rank[cls] {
+				cls, why = s.class, s.why
 			}
+			switch {
+			case o.ok && !s.ok:
+				*o = s
+			case o.ok && s.ok && s.K > o.K:
+				o.K, o.capAt = s.K, s.capAt
+			}
+			o.class, o.why = cls, why
 			continue
 		}
 		out = append(out, s)
 	}
 	return out
+}
+
+// c19CapRules: rule (a). Two obligations per fetch, after lifting (c19CapDecide):
+//
+// cap-before-fetch/<fn>#k — the read is reachable only through `D.Size <= K`, K a positive constant. Without it the
+// declared size of a hostile referrer decides how much is allocated and read: the clause "refused before its content
+// is used" fails for every size.
+//
+// cap-class/<fn>#k — K is at most the cap of the reference tree for that kind of content: 4 MiB for what is decoded as
+// a manifest, 32 MiB for the envelope FetchSignatureBlob hands out. A manifest fetched under the blob cap (the
+// comparison of a shared helper written against the wrong bound, a call site passing the wrong constant) is a
+// referrer "whose manifest exceeds the size caps" that is fetched, decoded and listed: the clause fails for the sizes
+// between the two caps, although every fetch still is capped by *some* constant. Accepted as equivalent: the test
+// inline, in a helper of its own (`tooLarge(d, limit)`, composed by the engine), in the fetching helper against a
+// constant or against a parameter in any position that every call site binds to a constant, through further
+// wrappers; `<` instead of `<=` (a cap of K-1); any smaller constant. Not decided here: which decode belongs to
+// which media type (lookup/…, list/…).
+func c19CapRules(c *Ctx) {
+	w := c.W
+	rule := "size cap before use: a read of D's content (content.FetchAll(_, _, D), content.ReadAll(_, D), x.Fetch(_, D)) is reachable only through `D.Size <= K` on the same descriptor D, which is not modified in between; K is a positive constant, or an integer parameter of the unexported helper the read stands in to which every call site passes a positive constant (decided per call site)"
+	classRule := fmt.Sprintf("size caps per use: content that is decoded as a manifest (the fetched bytes reach json.Unmarshal / a json.Decoder) is fetched under `D.Size <= K` with K <= %d (4 MiB), the envelope that FetchSignatureBlob returns under K <= %d (32 MiB); K is the constant the comparison guarding the read really uses (a cap parameter of a helper that does not take part in that comparison does not count). "+
+		"The two numbers are the caps of the reference tree (registry/repository.go: the library's limits for a signature manifest and a signature envelope); raising one is a behaviour change of the clause `a referrer whose manifest or blob exceeds the size caps is refused before its content is used`, not a refactoring", c19ManifestCap, c19BlobCap)
+	var entry *ssa.Function
+	for _, f := range w.implementers("registry", "Repository", "FetchSignatureBlob") {
+		if f.Pkg != nil && f.Pkg.Pkg.Path() == modPath+"/registry" {
+			entry = f
+		}
+	}
+	var sites []c19CapSite
+	for _, fn := range w.FuncsOfPkg("registry") {
+		for _, ci := range allCalls(fn) {
+			D := c19SinkDesc(ci)
+			if D == nil {
+				continue
+			}
+			c.SeenFn(fn.String())
+			c.Evals++
+			c19CapDecide(w, entry, fn, ci, D, &sites)
+		}
+	}
+	c19CapMemo[w] = append([]c19CapSite{}, sites...)
+	sites = c19SortSites(sites)
+	perFn := map[string]int{}
+	nClass := map[string]int{}
+	for _, s := range sites {
+		c.SeenFn(s.fn.String())
+		perFn[fnName(s.fn)]++
+		nClass[s.class]++
+		sfx := fmt.Sprintf("%s#%d", fnName(s.fn), perFn[fnName(s.fn)])
+		if !s.ok {
+			c.Bad("cap-before-fetch/"+sfx, rule, w.InstrPos(s.in), s.detail)
+			continue
+		}
+		c.OK("cap-before-fetch/"+sfx, rule+fmt.Sprintf(" [K=%d]", s.K), w.InstrPos(s.in))
+		what := s.class
+		if what == "" {
+			what = "use not identified"
+		}
+		tag := fmt.Sprintf(" [%s, K=%d]", what, s.K)
+		switch {
+		case s.K > c19BlobCap:
+			c.Bad("cap-class/"+sfx, classRule, w.InstrPos(s.in), fmt.Sprintf("content fetched under a cap of %d bytes (comparison at %s), above both caps of the reference tree", s.K, s.capAt))
+		case s.class == "manifest" && s.K > c19ManifestCap:
+			c.Bad("cap-class/"+sfx, classRule, w.InstrPos(s.in), fmt.Sprintf("manifest fetched under a cap of %d bytes (the manifest cap is %d): the bytes of this fetch are decoded as JSON; the comparison that guards the read stands at %s", s.K, c19ManifestCap, s.capAt))
+		case s.class == "" && s.K > c19ManifestCap:
+			c.Unk("cap-class/"+sfx, classRule, w.InstrPos(s.in), fmt.Sprintf("content fetched under a cap of %d bytes, which only the envelope may be, but what the bytes are used for was not identified: %s (comparison at %s)", s.K, s.why, s.capAt))
+		default:
+			c.OK("cap-class/"+sfx, classRule+tag, w.InstrPos(s.in))
+		}
+	}
+	// vacuity guard, on the obligations after lifting: the registry package fetches manifests (listing fallback, blob
+	// lookup) and the envelope
+	if len(sites) < 2 || nClass["manifest"] < 1 || nClass["blob"] < 1 {
+		c.Unk("cap-before-fetch#count", "vacuity guard: the registry package fetches at least one manifest (bytes decoded as JSON) and the envelope blob (bytes returned by FetchSignatureBlob)", "-",
+			fmt.Sprintf("%d fetches after lifting: %d manifest, %d blob, %d not identified (4 = 3 + 1 + 0 on the reference tree)", len(sites), nClass["manifest"], nClass["blob"], nClass[""]))
+	} else {
+		c.OK("cap-before-fetch#count", "vacuity guard: the registry package fetches at least one manifest (bytes decoded as JSON) and the envelope blob (bytes returned by FetchSignatureBlob)", "-")
+	}
 }
 
 // ---------- gates decided inside helpers -------------------------------------------
